@@ -22,7 +22,9 @@ pub fn err_sig(e: &EVMError<DbErr>) -> String {
         EVMError::Transaction(t) => format!("Transaction({t:?})"),
         EVMError::Header(h) => format!("Header({h:?})"),
         EVMError::Database(d) => format!("Database({})", d.0),
-        EVMError::Custom(s) => format!("Custom({s})"),
+        // the reference's `State<WrapDatabaseRef<..>>` wraps database errors once more
+        // (`EvmDatabaseError`), which only shows in the text of stringified errors
+        EVMError::Custom(s) => format!("Custom({})", s.replace("Database error: ", "")),
         EVMError::CustomAny(s) => format!("CustomAny({s})"),
     }
 }
